@@ -33,7 +33,7 @@ WATCHDOG = {"quick": 900, "thorough": 3400}
 
 BINOPS = ["__add__", "__sub__", "__mul__", "__truediv__", "__eq__", "__ne__", "__lt__", "__le__", "__gt__", "__ge__",
           "logical_and", "logical_or", "logical_xor", "innerprod", "mask", "scale_sp"]
-UNOPS = ["logical_not", "ones", "elemfun", "neg", "pos", "norm", "full", "sptenmat_rt", "sptenmat_ctor", "sptenmat_setitem", "permute",
+UNOPS = ["logical_not", "ones", "elemfun", "neg", "pos", "norm", "full", "sptenmat_rt", "sptenmat_ctor", "sptenmat_setitem", "sptenmat_isequal", "permute",
          "reshape", "squeeze", "squash", "collapse", "contract", "ttv", "ttm", "mttkrp", "extract", "getitem_region", "getitem_subs",
          "setitem_subs", "setitem_region", "eq_scalar", "ne_scalar", "lt_scalar", "ge_scalar", "mul_scalar", "div_scalar", "div0",
          "and_dense", "mul_dense", "eq_dense", "gt_dense", "div_dense", "copy", "spmatrix", "from_aggregator", "innerprod_dense", "scale_dense"]
@@ -361,7 +361,7 @@ def _cls(p):
 
 def _opname(op):
     table = {"neg": "__neg__", "pos": "__pos__", "scale_sp": "scale", "scale_dense": "scale", "sptenmat_rt": "to_sptenmat",
-             "sptenmat_ctor": "sptenmat.__init__", "sptenmat_setitem": "sptenmat.__setitem__", "getitem_region": "__getitem__",
+             "sptenmat_ctor": "sptenmat.__init__", "sptenmat_setitem": "sptenmat.__setitem__", "sptenmat_isequal": "sptenmat.isequal", "getitem_region": "__getitem__",
              "getitem_subs": "__getitem__", "setitem_subs": "__setitem__", "setitem_region": "__setitem__", "eq_scalar": "__eq__",
              "ne_scalar": "__ne__", "lt_scalar": "__lt__", "ge_scalar": "__ge__", "mul_scalar": "__mul__", "div_scalar": "__truediv__",
              "div0": "__truediv__", "and_dense": "logical_and", "mul_dense": "__mul__", "eq_dense": "__eq__", "gt_dense": "__gt__",
@@ -458,7 +458,7 @@ def _params(op, rng, shape, A):
         p["dims"] = [d]
         F = _array_with(rng, (shape[d],), int(rng.integers(1, shape[d] + 1)))
         p["F"] = F
-    elif op in ("sptenmat_rt", "sptenmat_ctor", "sptenmat_setitem"):
+    elif op in ("sptenmat_rt", "sptenmat_ctor", "sptenmat_setitem", "sptenmat_isequal"):
         parts = gen.ordered_partitions(N)
         p["r"], p["c"] = parts[int(rng.integers(0, len(parts)))]
         p["more"] = bool(rng.integers(0, 2))
@@ -514,6 +514,21 @@ def _invoke(op, SA, SB, p):
     if op == "sptenmat_rt":
         M = SA.to_sptenmat(np.array(p["r"], dtype=int), np.array(p["c"], dtype=int))
         return [M, M.to_sptensor()]
+    if op == "sptenmat_isequal":
+        # the matricized form of this tensor and of the same tensor stored in sorted order are equal as objects (isequal), whichever
+        # way they are built: conversion, constructor from the coordinate list, copy
+        r_, c_ = np.array(p["r"], dtype=int), np.array(p["c"], dtype=int)
+        M = SA.to_sptenmat(r_, c_)
+        if SA.nnz:
+            o_ = np.lexsort(np.asarray(SA.subs).T[::-1])
+            SC = ttb.sptensor(np.asarray(SA.subs)[o_].copy(), np.asarray(SA.vals)[o_].copy(), SA.shape)
+        else:
+            SC = SA.copy()
+        Mref = SC.to_sptenmat(r_, c_)
+        ok = bool(M.isequal(Mref)) and bool(Mref.isequal(M)) and bool(M.copy().isequal(Mref))
+        if M.subs.size:
+            ok = ok and bool(ttb.sptenmat(M.subs.copy(), M.vals.copy(), M.rdims.copy(), M.cdims.copy(), M.tshape).isequal(Mref))
+        return float(ok)
     if op == "sptenmat_ctor":
         M = SA.to_sptenmat(np.array(p["r"], dtype=int), np.array(p["c"], dtype=int))
         # rebuild from its coordinate list presented in reversed order, with copying (sort + aggregate path)
@@ -655,6 +670,8 @@ def _reference(op, A, B, p):
             return float(np.sqrt(np.sum(A * A)))
         if op == "sptenmat_rt":
             return [A, A]
+        if op == "sptenmat_isequal":
+            return 1.0
         if op == "sptenmat_ctor":
             return A
         if op == "sptenmat_setitem":
